@@ -73,6 +73,12 @@ def spec_for(option, d):
                            vals={'cli': 'r-cli', 'env': 'r-env', 'profile': 'r-prof', 'default': 'r-def', 'builtin': '__missing__'}, observe=lambda r: r['kw'].get('region', '__missing__'), typ=str),
         's3c.scheme': dict(backend='s3c', cli=['--scheme', 'cli-s'], env={'S3C_SCHEME': 'env-s'}, profile=('scheme', 'prof-s'), default=('scheme', 'def-s'),
                            vals={'cli': 'cli-s', 'env': 'env-s', 'profile': 'prof-s', 'default': 'def-s', 'builtin': 'https'}, observe=lambda r: r['kw'].get('scheme', '__missing__'), typ=str),
+        's3.key-id': dict(backend='s3', cli=['--key-id', 'K3CLI'], env={'S3_KEY_ID': 'K3ENV'}, profile=('key-id', 'K3PROF'), default=('key-id', 'K3DEF'),
+                          vals={'cli': 'K3CLI', 'env': 'K3ENV', 'profile': 'K3PROF', 'default': 'K3DEF', 'builtin': '__missing__'}, observe=lambda r: r['kw'].get('key_id', '__missing__'), typ=str),
+        's3.region': dict(backend='s3', cli=['--region', 'r3-cli'], env={'S3_REGION': 'r3-env'}, profile=('region', 'r3-prof'), default=('region', 'r3-def'),
+                          vals={'cli': 'r3-cli', 'env': 'r3-env', 'profile': 'r3-prof', 'default': 'r3-def', 'builtin': '__missing__'}, observe=lambda r: r['kw'].get('region', '__missing__'), typ=str),
+        'b2.key-id': dict(backend='b2', cli=['--key-id', 'KBCLI'], env={'B2_KEY_ID': 'KBENV'}, profile=('key-id', 'KBPROF'), default=('key-id', 'KBDEF'),
+                          vals={'cli': 'KBCLI', 'env': 'KBENV', 'profile': 'KBPROF', 'default': 'KBDEF', 'builtin': '__missing__'}, observe=lambda r: r['kw'].get('key_id', '__missing__'), typ=str),
         'pc.token': dict(backend='pc', cli=['--token', 'tcli'], env={'PC_TOKEN': 'tenv'}, profile=('token', 'tprof'), default=('token', 'tdef'),
                          vals={'cli': 'tcli', 'env': 'tenv', 'profile': 'tprof', 'default': 'tdef', 'builtin': '__missing__'}, observe=lambda r: r['kw'].get('token', '__missing__'), typ=str),
         'pc.port': dict(backend='pc', cli=['--port', '1001'], env={'PC_PORT': '1002'}, profile=('port', 1003), default=('port', '1004'),
@@ -115,7 +121,7 @@ def invoke(argv, env):
     rmain._configure_logging = lambda level: levels.append(level)
     old_argv, old_env = sys.argv, dict(os.environ)
     for k in list(os.environ):
-        if k.startswith(('REPLICAT_', 'S3C_', 'PC_', 'LOCAL_')):
+        if k.startswith(('REPLICAT_', 'S3C_', 'S3_', 'B2_', 'PC_', 'LOCAL_')):
             del os.environ[k]
     os.environ.update(env)
     sys.argv = argv
@@ -166,7 +172,7 @@ def run_case(option, present, cmd, d, same='none'):
     be = sp['backend']
     # the repository itself (unless it is the option under test) always comes from the default section
     if option != 'repository':
-        default_lines.insert(0, 'repository = "%s:%s"' % (be, str(d / 'repo') if be != 's3c' else 'bucket'))
+        default_lines.insert(0, 'repository = "%s:%s"' % (be, str(d / 'repo') if be not in ('s3c', 's3', 'b2') else 'bucket'))
     cfgfile = d / 'replicat.toml'
     cfgfile.write_text('\n'.join(default_lines) + '\n[prof]\n' + '\n'.join(profile_lines) + '\n', encoding='utf-8')
     argv = ['replicat', cmd] + [{'PATH': str(d), 'SNAP': 'abc', 'OBJ': 'o'}.get(x, x) for x in POSITIONAL[cmd]] + ['--config', str(cfgfile), '--profile', 'prof'] + opts
